@@ -44,6 +44,9 @@ def run(ctx, db, tier):
         reach_rule(ctx, db, ('-UNDEBUG',) if ctx.cfg == 'assert' else ('-DNDEBUG',))
     C06.growth(ctx, db) if False else growth_guard(ctx, db)
     enqueue_only_active(ctx, db)
+    # the ready deque is a named boundary whose only allocation is growth at the back; any other operation on it (shrink_to_fit, resize, a
+    # swap with a fresh container ...) re-allocates behind that boundary on otherwise allocation-free paths
+    C05.fifo_ops(ctx, db, 'C20.ready-queue-only-fifo-ops')
     C19.trailers(ctx, db) if False else storage_learns(ctx, db)
 
 
